@@ -169,5 +169,16 @@ CHECKS = {
           "tests and a missed wake-up is a hang. Order across blocks and consumer termination are not decided.",
   "note": "Trusted: clang 14 CFG; kernel futex; ConcurrentVector snapshot/for_each block iteration (C04).",
   "technique": "static analysis: fence-between / ordering / edge-guard / range-agreement rules over inlined CFG facts"},
+ "C19": {
+  "text": "Decides on the thread-local / counter layer: a compact thread-local zeroes its offset in every thread's line (for_each over all "
+          "slots ever used) before returning its instance id, and derives storage index and offset from the same fresh id with the same "
+          "divisor; the per-thread cache is keyed by an id minted by fetch_add, id and item are written together after the slot exists, the "
+          "fast path uses the cached item only under id equality; aggregate readers sum over for_each (bounded by ThreadId::end), never "
+          "for_each_alive (live-id enumeration); the comparer's reset only bumps the version, a stale-version write overwrites value and "
+          "version, readers skip stale slots; the adder does a plain read-add-write on its own slot and reset zeroes all; move members "
+          "transfer every field. Slot recycling across generations of threads / instances needs long create-destroy histories the tests do "
+          "not produce. Exactness of sums under concurrent readers is not decided.",
+  "note": "Trusted: clang 14 CFG; ConcurrentVector (C04) and IdAllocator (C14).",
+  "technique": "static analysis: ordering/dominance, resolved-callee (who sums over what), edge-guard and special-member completeness rules over CFG facts"},
 }
 NOT_APPLICABLE = {("C%02d" % i): PENDING for i in range(1, 21) if ("C%02d" % i) not in CHECKS}
